@@ -164,9 +164,15 @@ def run(tier):
                     break
         else:
             ck.cov['traces_validated_against_impl'] += 1
-            if len(cli) < (150 if tier == 'quick' else 1500) and rnd.random() < 0.08:
-                cli.append((e, replay))
-    cli_leg(ck, cli)
+            cli.append((e, replay))
+    # CLI sample, stratified: half of it with header lines before the banner, and some non-conforming banners
+    ncli = 150 if tier == 'quick' else 1500
+    with_hdr = [x for x in cli if x[0]['header']]
+    nonascii = [x for x in cli if not x[0]['banner']['valid']]
+    rest = [x for x in cli if not x[0]['header'] and x[0]['banner']['valid']]
+    pick = rnd.sample(with_hdr, min(len(with_hdr), ncli // 2)) + rnd.sample(nonascii, min(len(nonascii), ncli // 6))
+    pick += rnd.sample(rest, min(len(rest), ncli - len(pick)))
+    cli_leg(ck, pick)
     ck.sample({'wire_text': bs(exps[7]['wire']).decode('latin-1'), 'expected_software': bs(exps[7]['banner']['software']).decode('latin-1'),
                'expected_header': [bs(h).decode('latin-1') for h in exps[7]['header']]})
     ck.cov['rule'] = ('TLC enumerates the grammar universe {1.5,1.99,2.0,2.1} x 11 software tokens x 5 comment forms x {CRLF,LF} x 0..2 header lines over 6 x injected '
